@@ -27,6 +27,7 @@ import (
 	vsync "github.com/GuanceCloud/platypus/pkg/verifsync"
 
 	"verif/mc/internal/deephash"
+	"verif/mc/internal/drv"
 	"verif/mc/internal/run"
 	"verif/mc/internal/sched"
 )
@@ -393,13 +394,25 @@ func c16Run(w *run.Worker) {
 			}
 		}
 	}
+	// what each operation gives ALONE IN A FRESH PROCESS (state that sticks to the process — a mode a
+	// shared engine object remembers, a memo — would otherwise be part of the baseline too)
 	alone := map[[2]int]string{}
+	exe, _ := os.Executable()
 	for oi := range ops {
 		for slot := 0; slot < 3; slot++ {
+			raw, err := exec.Command(exe, "c16base", fmt.Sprint(oi), fmt.Sprint(slot)).Output()
+			if err != nil {
+				w.Violate("C16:harness:baseline-process-failed", fmt.Sprintf("%s slot %d: %v", ops[oi].Name, slot, err), c16Case{Part: "baseline", Ops: []int{oi}})
+				return
+			}
+			alone[[2]int{oi, slot}] = string(raw)
 			for _, p := range c16Pools() {
 				p.Drain()
 			}
-			alone[[2]int{oi, slot}] = ops[oi].Do(env, slot)
+			if here := ops[oi].Do(env, slot); here != string(raw) && w.Shard == 0 {
+				w.Violate("C16:result-differs-from-alone-run:"+ops[oi].Name+":after-other-operations-in-this-process",
+					fmt.Sprintf("%s (slot %d) alone in a fresh process: %s\nafter the other operations ran (sequentially) in this process: %s", ops[oi].Name, slot, raw, here), c16Case{Part: "baseline", Ops: []int{oi}})
+			}
 		}
 	}
 	c16SharedWrites(w, env, ops)
@@ -490,7 +503,25 @@ func c16Replay(raw json.RawMessage) (bool, string) {
 	return false, "the race pass is replayed by running `.cache/bin/vcheck-race racepass 200`"
 }
 
+// c16BaseMain: one operation in a fresh process, outcome on stdout.
+func c16BaseMain(args []string) int {
+	var oi, slot int
+	if len(args) < 2 {
+		return 2
+	}
+	fmt.Sscanf(args[0], "%d", &oi)
+	fmt.Sscanf(args[1], "%d", &slot)
+	env, err := c16Load()
+	ops := c16Ops()
+	if err != nil || oi < 0 || oi >= len(ops) {
+		return 2
+	}
+	fmt.Fprint(drv.RealStdout, ops[oi].Do(env, slot))
+	return 0
+}
+
 func init() {
+	run.Subcommands["c16base"] = c16BaseMain
 	run.Register(&run.Check{
 		ID:    "C16",
 		Level: "model_checking",
